@@ -1314,8 +1314,13 @@ class Bpsec(AbstractApplication):
         # Report status reason
         failure = []
 
-        confidential_blocks = ctr.block_type(BlockConfidentialityBlock)
-        for bcb in confidential_blocks:
+        bcb_type = BlockConfidentialityBlock._overload_fields[CanonicalBlock]['type_code']
+        # a copy because accepted blocks are removed
+        for bcb in tuple(ctr.block_type(bcb_type)):
+            if not isinstance(bcb.payload, BlockConfidentialityBlock):
+                LOGGER.warning('Unintelligible BCB in block num %s', bcb.block_num)
+                failure.append(StatusReport.ReasonCode.FAILED_SEC)
+                continue
             LOGGER.debug('Verifying BCB in %d with context %s, targets %s',
                          bcb.block_num, bcb.payload.context_id, bcb.payload.targets)
 
@@ -1351,8 +1356,13 @@ class Bpsec(AbstractApplication):
         # Report status reason
         failure = []
 
-        integ_blocks = ctr.block_type(BlockIntegrityBlock)
-        for bib in integ_blocks:
+        bib_type = BlockIntegrityBlock._overload_fields[CanonicalBlock]['type_code']
+        # a copy because accepted blocks are removed
+        for bib in tuple(ctr.block_type(bib_type)):
+            if not isinstance(bib.payload, BlockIntegrityBlock):
+                LOGGER.warning('Unintelligible BIB in block num %s', bib.block_num)
+                failure.append(StatusReport.ReasonCode.FAILED_SEC)
+                continue
             LOGGER.debug('Verifying BIB in %d with context %s, targets %s',
                          bib.block_num, bib.payload.context_id, bib.payload.targets)
 
